@@ -7,6 +7,8 @@ import (
 	"strings"
 	"sync/atomic"
 
+	r "github.com/Trisia/randomness"
+
 	"verif/calls"
 	"verif/common"
 	"verif/enum"
@@ -426,6 +428,8 @@ func Run(ctx *common.Ctx) int {
 			})
 		})
 	}
+	// ---------- byte-oriented entry points and registry runners under the same transformations ----------
+	byteEvals := s.byteLevel(ctx)
 	cov := common.Coverage{
 		"evaluations":         int(s.evals),
 		"distinct_nontrivial": s.distinct.Count(),
@@ -433,10 +437,152 @@ func Run(ctx *common.Ctx) int {
 			"oracle: f(x) against f(Tx) mapped as the property states (monobit Q -> 1-Q, longest run ones <-> zeros, cumulative sums forward <-> backward); 1e-9 where a sum is reordered, bit-identical otherwise; distinct = distinct (call, P(x)) pairs with 0<P<1",
 		"samples": []interface{}{
 			map[string]interface{}{"family": "S1", "lengths": lens, "comparisons": s1, "example": "x=0110100110010110: ApproximateEntropyProto(m=2)(x) = (rotate x by 5), PokerProto(m=4): blocks 2,0,3,1"},
-			map[string]interface{}{"family": "S2", "lengths": big, "comparisons": s.evals - s1},
+			map[string]interface{}{"family": "S2", "lengths": big, "comparisons": s.evals - s1 - byteEvals},
+			map[string]interface{}{"family": "byte level", "comparisons": byteEvals, "inputs": "every 1- and 2-byte string, fillers of 3..40, 100, 125, 128, 1121, 2500 bytes", "calls": "MonoBitFrequencyTestBytes, PokerTestBytes(m=4,8), the fifteen registry runners"},
 		},
 		"calls":      len(s.tab),
 		"exhaustive": exhaustive,
 	}
 	return ctx.Finish("exploration", cov, []string{"differential oracle only: no expected values are used", "rank and linear complexity are excluded from complement/reversal, as the property states"})
+}
+
+func rev8(b byte) byte {
+	var r byte
+	for i := 0; i < 8; i++ {
+		if b>>uint(i)&1 == 1 {
+			r |= 1 << uint(7-i)
+		}
+	}
+	return r
+}
+
+// byteLevel checks complement / reversal / byte permutation on the byte-oriented entry points and runners.
+func (s *st) byteLevel(ctx *common.Ctx) int64 {
+	var n int64
+	near := func(a, b, tol float64) bool {
+		return math.Abs(a-b) <= tol || (math.IsNaN(a) && math.IsNaN(b))
+	}
+	check := func(data []byte, desc func() interface{}) {
+		L := len(data)
+		comp := make([]byte, L)
+		rev := make([]byte, L)
+		for i, b := range data {
+			comp[i] = ^b
+			rev[L-1-i] = rev8(b)
+		}
+		rot := append(append([]byte{}, data[L/3:]...), data[:L/3]...) // a permutation of whole bytes
+		call := func(f func() (float64, float64)) (p, q float64, ok bool) {
+			ok = common.Catch(func() { p, q = f() }) == nil
+			return
+		}
+		rep := func(name, kind string, a, b []float64) {
+			s.ctx.Report(name+"/"+kind, fmt.Sprintf("%s is not invariant under %s: %v on x, %v on the transformed bytes (after the mapping the property states)", name, kind, a, b), desc())
+		}
+		atomic.AddInt64(&n, 1)
+		// monobit
+		if p, q, ok := call(func() (float64, float64) { return r.MonoBitFrequencyTestBytes(data) }); ok {
+			if pc, qc, ok2 := call(func() (float64, float64) { return r.MonoBitFrequencyTestBytes(comp) }); ok2 && (!near(p, pc, 0) || !near(1-q, qc, 1e-15)) {
+				rep("MonoBitFrequencyTestBytes", "complement (Q -> 1-Q)", []float64{p, 1 - q}, []float64{pc, qc})
+			}
+			if pr, qr, ok2 := call(func() (float64, float64) { return r.MonoBitFrequencyTestBytes(rev) }); ok2 && (!near(p, pr, 0) || !near(q, qr, 0)) {
+				rep("MonoBitFrequencyTestBytes", "reversal", []float64{p, q}, []float64{pr, qr})
+			}
+		}
+		for _, m := range []int{4, 8} {
+			m := m
+			if p, q, ok := call(func() (float64, float64) { return r.PokerTestBytes(data, m) }); ok {
+				if pc, qc, ok2 := call(func() (float64, float64) { return r.PokerTestBytes(comp, m) }); ok2 && (!near(p, pc, 1e-9) || !near(q, qc, 1e-9)) {
+					rep(fmt.Sprintf("PokerTestBytes(m=%d)", m), "complement", []float64{p, q}, []float64{pc, qc})
+				}
+				if pp, qp, ok2 := call(func() (float64, float64) { return r.PokerTestBytes(rot, m) }); ok2 && (!near(p, pp, 1e-9) || !near(q, qp, 1e-9)) {
+					rep(fmt.Sprintf("PokerTestBytes(m=%d)", m), "block permutation", []float64{p, q}, []float64{pp, qp})
+				}
+			}
+		}
+		if L < 128 {
+			return
+		}
+		// registry runners
+		run := func(i int, d []byte) (res *r.TestResult) {
+			if common.Catch(func() { res = r.TestMethodArr[i].Runner(d) }) != nil {
+				return nil
+			}
+			return res
+		}
+		for i := 0; i < 15 && i < len(r.TestMethodArr); i++ {
+			if (i == 13 && L < 1121) || i == 9 || i == 12 {
+				continue
+			}
+			x := run(i, data)
+			c := run(i, comp)
+			if x == nil || c == nil {
+				continue
+			}
+			name := fmt.Sprintf("runner %d", i)
+			switch i {
+			case 0:
+				if !near(x.P, c.P, 0) || !near(1-x.Q, c.Q, 1e-15) {
+					rep(name, "complement (Q -> 1-Q)", []float64{x.P, 1 - x.Q}, []float64{c.P, c.Q})
+				}
+			case 6:
+				if zp, zq, ok := call(func() (float64, float64) { return r.LongestRunOfOnesInABlockTestBytes(data, false) }); ok && (!near(zp, c.P, 0) || !near(zq, c.Q, 0)) {
+					rep(name, "complement (ones <-> zeros)", []float64{zp, zq}, []float64{c.P, c.Q})
+				}
+			default:
+				if !near(x.P, c.P, 1e-9) || !near(x.Q, c.Q, 1e-9) || !near(x.P2, c.P2, 1e-9) || x.Pass != c.Pass && math.Abs(math.Min(x.P, 1)-0.01) > 1e-9 && (i != 3 || math.Abs(math.Min(x.P, x.P2)-0.01) > 1e-9) {
+					rep(name, "complement", []float64{x.P, x.Q, x.P2}, []float64{c.P, c.Q, c.P2})
+				}
+			}
+			// reversal: monobit, overlapping, runs, runs distribution, binary derivative, autocorrelation, approximate entropy; cumulative sums forward <-> backward
+			switch i {
+			case 0, 3, 4, 5, 7, 8, 11:
+				if v := run(i, rev); v != nil && (!near(x.P, v.P, 1e-9) || !near(x.Q, v.Q, 1e-9) || !near(x.P2, v.P2, 1e-9)) {
+					rep(name, "reversal", []float64{x.P, x.Q, x.P2}, []float64{v.P, v.Q, v.P2})
+				}
+			case 10:
+				if v := run(i, rev); v != nil {
+					if bp, bq, ok := call(func() (float64, float64) { return r.CumulativeTestBytes(data, false) }); ok && (!near(bp, v.P, 0) || !near(bq, v.Q, 0)) {
+						rep(name, "reversal (forward <-> backward)", []float64{bp, bq}, []float64{v.P, v.Q})
+					}
+				}
+			}
+		}
+	}
+	for v := 0; v < 65536+256; v++ {
+		var data []byte
+		if v < 256 {
+			data = []byte{byte(v)}
+		} else {
+			data = []byte{byte((v - 256) >> 8), byte(v - 256)}
+		}
+		check(data, func() interface{} { return map[string]interface{}{"bytes": fmt.Sprintf("%x", data)} })
+	}
+	var lens []int
+	for l := 3; l <= 40; l++ {
+		lens = append(lens, l)
+	}
+	lens = append(lens, 100, 125, 128, 129, 1121, 2500)
+	type job struct{ l, k int }
+	var jobs []job
+	for _, l := range lens {
+		for k := 0; k < 6; k++ {
+			jobs = append(jobs, job{l, k})
+		}
+	}
+	common.ParFor(len(jobs), func(i int) {
+		j := jobs[i]
+		data := enum.FillerBytes(j.l, uint64(ctx.Seed)+uint64(j.l*7+j.k))
+		if j.k%3 == 2 {
+			for t := range data {
+				if t%4 == 0 {
+					data[t] |= 0x30
+				}
+			}
+		}
+		check(data, func() interface{} {
+			return map[string]interface{}{"filler_bytes": j.l, "seed": ctx.Seed + int64(j.l*7+j.k), "biased": j.k%3 == 2}
+		})
+	})
+	atomic.AddInt64(&s.evals, n)
+	return n
 }
